@@ -70,6 +70,10 @@ class C11(Prop):
                             {"extra_top": {"url-list": [URLS[4], URLS[1]], "comment": "x", "zzz": 5}},
                             {"extra_top": {}, "extra_info": {"private": 1, "source": "s", "x-unknown": [1, "a"]}},
                             {"extra_top": {"url-list": URLS[1], "announce": URLS[2]}, "extra_info": {"aaa": "first"}},
+                            # raw binary values outside the hash fields (digests other tools record, legacy-encoded text)
+                            {"extra_top": {"announce": URLS[0]},
+                             "extra_info": {"filehash": bytes(range(236, 256)), "ed2k": b"\x00\xff\xfe\x80" * 4,
+                                            "name.latin1": "r\xe9sum\xe9".encode("latin-1"), "x-int": -7}},
                         ]
                         f = forms[n % len(forms)]
                         out.append(dict({"src": "ref", "version": v, "P": B, "tree": tree, "request": req,
